@@ -445,6 +445,8 @@ func firstDiff(a, b string) string {
 	return ""
 }
 
+var acrStatePool = []string{"2", "10", "19A", "3", "14", "7B", "s0", "s1", "A", "100", "b", "1e1"}
+
 func TestC18Lib(t *testing.T) {
 	h.Run(t, h.Spec[LibCase]{
 		Property: "C18", Name: "lib", Quick: 4000, Thorough: 160000,
@@ -472,7 +474,8 @@ func TestC18Lib(t *testing.T) {
 			case "acr":
 				k := rapid.IntRange(2, 12).Draw(t, "k")
 				for i := 0; i < n; i++ {
-					c.States = append(c.States, fmt.Sprintf("s%d", rapid.IntRange(0, k-1).Draw(t, "st")))
+					// state labels that sort differently as numbers and as text, next to plain ones
+					c.States = append(c.States, acrStatePool[rapid.IntRange(0, k-1).Draw(t, "st")])
 				}
 			case "asr-nucl":
 				for i := 0; i < n; i++ {
